@@ -17,6 +17,7 @@ struct KJob final : Job {
   }
   void Drop() noexcept final { ++drops; }
   unsigned calls = 0, drops = 0, owner = 0, seq = 0;
+  bool submitted = false;
 };
 static KJob g_job[4];
 static vp::StubExec g_u;   // underlying executor: mailbox (deferred) so that the harness decides when a batch runs
@@ -31,10 +32,10 @@ extern "C" void c07a_prologue(unsigned stopped, unsigned presubmitted) {
   g_job[0].owner = 0; g_job[0].seq = 1; g_job[1].owner = 0; g_job[1].seq = 2;
   g_job[2].owner = 1; g_job[2].seq = 1; g_job[3].owner = 1; g_job[3].seq = 2;
   g_njobs = 3;
-  if (presubmitted) { g_strand->Submit(g_job[3]); g_job[3].seq = 0; g_job[2].seq = 1; g_njobs = 4; }  // strand already scheduled with one job
+  if (presubmitted) { g_job[3].seq = 1; g_job[2].seq = 2; g_job[3].submitted = true; g_strand->Submit(g_job[3]); }  // strand already scheduled with one job
 }
-extern "C" void c07a_submitter0() { g_strand->Submit(g_job[0]); g_strand->Submit(g_job[1]); }
-extern "C" void c07a_submitter1() { g_strand->Submit(g_job[2]); }
+extern "C" void c07a_submitter0() { g_job[0].submitted = true; g_strand->Submit(g_job[0]); g_job[1].submitted = true; g_strand->Submit(g_job[1]); }
+extern "C" void c07a_submitter1() { g_job[2].submitted = true; g_strand->Submit(g_job[2]); }
 extern "C" void c07a_runner() { g_u.Drain(); }   // a worker of the underlying executor takes what is scheduled and runs it
 extern "C" void c07a_epilogue() {
   for (int i = 0; i < 3; ++i) g_u.Drain();
@@ -42,7 +43,7 @@ extern "C" void c07a_epilogue() {
   vp_assert(g_overlap == 0, "C07 two strand jobs ran concurrently");
   vp_assert(g_order_bad == 0, "C07 jobs of one submitting thread ran out of program order");
   for (unsigned i = 0; i < 4; ++i) {
-    if (i == 3 && g_njobs == 3) continue;
+    if (!g_job[i].submitted) { vp_assert(g_job[i].calls + g_job[i].drops == 0, "C07 a job that was never submitted ran"); continue; }
     vp_assert(g_job[i].calls + g_job[i].drops == 1, "C07 job neither Called nor Dropped exactly once (lost or duplicated)");
     if (!g_u.stopped) vp_assert(g_job[i].drops == 0, "C07 job Dropped although the underlying executor accepted work");
     else vp_assert(g_job[i].calls == 0, "C07 job Called although the underlying executor refused the strand");
